@@ -29,6 +29,8 @@ CONSTANTS Shells,        \* shell objects
           Funcs,         \* function names; ArgsOf[f] is the tuple of objects f is called with
           ArgsOf,
           RaisesF,       \* the functions whose arguments are deliberately invalid (the call raises)
+          Canon,         \* Canon[f]: the function whose answers f shares -- a method of a long-lived integral object must
+                         \* answer as the public function does, whatever the object has been asked before
           MaxVersions,   \* number of distinct values an object may take in the bounded model
           PopVariant     \* TRUE: model the tree before the make_contractions repair
 
@@ -45,7 +47,7 @@ Init == /\ val = [o \in Objects |-> IF o \in Shells THEN <<1, 1>> ELSE 1]
         /\ memo = [k \in {<<"assign_norm", s, 1>> : s \in Shells} |-> 1]   \* a shell is normalised when constructed
         /\ last = <<"init">>
 
-KeyOf(f) == <<f, [i \in 1..Len(ArgsOf[f]) |-> val[ArgsOf[f][i]]]>>
+KeyOf(f) == <<Canon[f], [i \in 1..Len(ArgsOf[f]) |-> val[ArgsOf[f][i]]]>>
 
 Remember(k, r) == /\ k \in DOMAIN memo => r = memo[k]
                   /\ memo' = IF k \in DOMAIN memo THEN memo ELSE memo @@ (k :> r)
@@ -62,6 +64,22 @@ Mutate(s, p2) ==
   /\ val' = [val EXCEPT ![s] = <<p2, @[2]>>]
   /\ UNCHANGED <<npErr, memo>>
   /\ last' = <<"mutate", s, p2>>
+
+\* the same change made IN PLACE on the arrays the shell holds (exps[k] = ..., coeffs *= ...): at the level of values it is
+\* Mutate; the implementation must not tell the two apart (no memo keyed by the identity of the arrays)
+MutateInPlace(s, p2) ==
+  /\ p2 # val[s][1]
+  /\ val' = [val EXCEPT ![s] = <<p2, @[2]>>]
+  /\ UNCHANGED <<npErr, memo>>
+  /\ last' = <<"mutate_inplace", s, p2>>
+
+\* a NEW shell object is built from the array objects the old one holds: the constructor normalises it, and the constants
+\* are those of the current parameters (what AssignNorm would give)
+Rebuild(s, n) ==
+  /\ val' = [val EXCEPT ![s] = <<@[1], n>>]
+  /\ Remember(<<"assign_norm", s, val[s][1]>>, n)
+  /\ UNCHANGED npErr
+  /\ last' = <<"rebuild", s>>
 
 \* assign_norm_cont(): the normalisation is recomputed; it is a function of the parameters only
 AssignNorm(s, n) ==
@@ -87,7 +105,9 @@ MakeContractionsPop(l) ==
 \* the normalisation id of parameters p is p itself (any injective choice would do)
 Next == \/ \E f \in Funcs : \E r \in 1..2 : Call(f, IF KeyOf(f) \in DOMAIN memo THEN memo[KeyOf(f)] ELSE r)
         \/ \E s \in Shells : \/ \E p2 \in 1..MaxVersions : Mutate(s, p2)
+                              \/ \E p3 \in 1..MaxVersions : MutateInPlace(s, p3)
                               \/ AssignNorm(s, val[s][1])
+                              \/ Rebuild(s, val[s][1])
         \/ \E a \in Arrays : \E v \in 1..MaxVersions : Overwrite(a, v)
         \/ \E l \in Lists : MakeContractionsPop(l)
 
@@ -104,7 +124,7 @@ Purity == [][IsCallStep => (val' = val /\ npErr' = npErr)]_vars
 MemoStable == [][\A k \in DOMAIN memo : k \in DOMAIN memo' /\ memo'[k] = memo[k]]_vars
 
 \* after assign_norm the cached normalisation is the one that belongs to the current parameters
-AfterAssign == last[1] = "assign_norm" =>
+AfterAssign == last[1] \in {"assign_norm", "rebuild"} =>
                  LET s == last[2] IN memo[<<"assign_norm", s, val[s][1]>>] = val[s][2]
 
 ErrStateKept == npErr = 1
